@@ -991,7 +991,13 @@ impl Thread {
     }
 
     pub fn interrupted(&self) -> bool {
+        // A thread runs on behalf of the thread that created it (a program that resumes a thread
+        // it spawned waits for it) so interrupting a thread also stops the threads below it
         self.interrupt.load(atomic::Ordering::Relaxed)
+            || self
+                .parent
+                .as_ref()
+                .map_or(false, |parent| parent.interrupted())
     }
 
     #[doc(hidden)]
